@@ -53,7 +53,7 @@ fn parse_forwarded_header(
     headers: &[httparse::Header<'_>],
 ) -> anyhow::Result<IpAddr> {
     for header in headers.iter().rev() {
-        if header.name == header_name {
+        if header.name.eq_ignore_ascii_case(header_name) {
             match header_format {
                 ReverseProxyPeerIpHeaderFormat::LastAddress => {
                     return ::std::str::from_utf8(header.value)?
